@@ -62,6 +62,7 @@ import (
 	"google.golang.org/grpc/status"
 
 	"github.com/newrelic/newrelic-php-agent/daemon/internal/newrelic/collector"
+	"github.com/newrelic/newrelic-php-agent/daemon/internal/newrelic/utilization"
 	v1 "github.com/newrelic/newrelic-php-agent/daemon/internal/newrelic/infinite_tracing/com_newrelic_trace_v1"
 	"github.com/newrelic/newrelic-php-agent/daemon/internal/newrelic/log"
 	"github.com/newrelic/newrelic-php-agent/daemon/internal/newrelic/protocol"
@@ -581,11 +582,46 @@ func c17ReadReply(c net.Conn) (st string, runID string, err error) {
 
 // ------------------------------------------------------------------ one round
 
+// c17ConnectPayloads: the goroutine structure of a connect, on utilization data that HAS a container id of the
+// daemon's own (this host is not a container, so the gathered data of the rounds never has one): the processor's
+// goroutine builds the connect payload of one application after the other from the shared gathered data
+// (considerConnect -> ConnectPayload, which overrides the container id with the agent's), each payload is handed to
+// a connect goroutine that encodes it later (ConnectApplication -> EncodePayload, after the preconnect round trip).
+func c17ConnectPayloads(seed int64) {
+	util := &utilization.Data{}
+	if err := json.Unmarshal([]byte(`{"metadata_version":5,"logical_processors":4,"total_ram_mib":1024,"hostname":"h",`+
+		`"vendors":{"docker":{"id":"0123456789abcdef0123456789abcdef0123456789abcdef0123456789abcdef"}}}`), util); err != nil {
+		return
+	}
+	rng := rand.New(rand.NewSource(seed))
+	var wg sync.WaitGroup
+	for k := 0; k < 24; k++ {
+		info := &AppInfo{License: collector.LicenseKey(fmt.Sprintf("%040d", 5000+k)), Appname: fmt.Sprintf("payload%d", k),
+			AgentLanguage: "php", AgentVersion: "1", Hostname: "h", Environment: JSONString(`[]`), Labels: JSONString(`[]`),
+			Settings: map[string]interface{}{}}
+		if k%3 != 2 {
+			info.DockerId = fmt.Sprintf("%064x", k+1)
+		}
+		payload := info.ConnectPayload(util) // processor goroutine
+		wg.Add(1)
+		go func(d time.Duration) { // connect goroutine
+			defer wg.Done()
+			time.Sleep(d)
+			EncodePayload(payload)
+		}(time.Duration(rng.Intn(300)) * time.Microsecond)
+		if rng.Intn(3) == 0 {
+			time.Sleep(time.Duration(rng.Intn(200)) * time.Microsecond)
+		}
+	}
+	wg.Wait()
+}
+
 func c17RunRound(r c17Round, idx int, tmp string, grpcPort int, closedPort int) *c17Stats {
 	st := &c17Stats{AppInfoReply: map[string]int64{}, Collector: map[string]int64{}}
 	if r.Procs > 0 {
 		runtime.GOMAXPROCS(r.Procs)
 	}
+	c17ConnectPayloads(r.Seed)
 	inner := &c17Collector{seed: r.Seed, stats: st}
 	var client collector.Client = collector.NewLimitClient(inner, 3, 2*time.Second)
 	realHost := ""
